@@ -1627,6 +1627,61 @@ func modeUUIDConc(n int) {
 	emit(J{"kind": "uuidconc", "values": len(vals), "goroutines": G, "calls": calls, "wrong": wrong, "examples": examples, "gomaxprocs": runtime.GOMAXPROCS(0)})
 }
 
+// parseconc mode: the outcomes of all parsers on a set of inputs, computed sequentially, must be reproduced when 32
+// goroutines parse the same inputs at once (parsers share no state)
+func modeParseConc(n int) {
+	var ins []string
+	ins = append(ins, corpusParse...)
+	for i := 0; i < n; i++ {
+		s := genVal().str()
+		switch rnd.Intn(3) {
+		case 0:
+			s = mutate(s)
+		case 1:
+			s = wrapBlanks(s)
+		}
+		ins = append(ins, s)
+	}
+	all := append(append([]string{}, kinds...), "blit")
+	outcome := func(s string) string {
+		o := J{}
+		for _, k := range all {
+			r, _ := parseKind(k, s)
+			o[k] = r
+		}
+		b, _ := json.Marshal(o)
+		return string(b)
+	}
+	seq := make([]string, len(ins))
+	for i, s := range ins {
+		seq[i] = outcome(s)
+	}
+	var wrong, calls int64
+	var mu sync.Mutex
+	var ex []string
+	var wg sync.WaitGroup
+	for g := 0; g < 32; g++ {
+		wg.Add(1)
+		go func(g int) {
+			defer wg.Done()
+			for k := 0; k < len(ins); k++ {
+				i := (k*5 + g*17) % len(ins)
+				atomic.AddInt64(&calls, 1)
+				if outcome(ins[i]) != seq[i] {
+					atomic.AddInt64(&wrong, 1)
+					mu.Lock()
+					if len(ex) < 5 {
+						ex = append(ex, hx(ins[i]))
+					}
+					mu.Unlock()
+				}
+			}
+		}(g)
+	}
+	wg.Wait()
+	emit(J{"kind": "parseconc", "inputs": len(ins), "goroutines": 32, "calls": calls, "wrong": wrong, "examples": ex})
+}
+
 // hash mode: one hex line per pre-image component list ("aa,bb,cc" = triple of three components); prints the UUID
 func modeHash() {
 	sc := bufio.NewScanner(os.Stdin)
@@ -1734,5 +1789,7 @@ func main() {
 		modeStdin()
 	case "uuidconc":
 		modeUUIDConc(*n)
+	case "parseconc":
+		modeParseConc(*n)
 	}
 }
